@@ -88,6 +88,9 @@ func (w *c17Worker) Run(path []LOp) (bfs.Outcome, error) {
 			return bfs.Outcome{}, err
 		}
 	}
+	// Every path starts from an empty session table: a change that couples sessions of different names must show up
+	// inside one path, not as interference between paths.
+	w.node.Rig.RealProcess.VerifClearSessions()
 	serial := w.serial.Add(1)
 	names := []string{fmt.Sprintf("%s/a-%d", rig.DistWallet, serial), fmt.Sprintf("%s/b-%d", rig.DistWallet, serial)}
 	parts := make([]*core.Endpoint, len(c17Participants))
